@@ -162,13 +162,14 @@ STATES = {
     "everything": {"s": "h", "i": 2, "f": 0.5, "b": "YQ==", "ch": "p", "sec": "s", "l": [3], "d": {"k": 2}, "any": [1], "sub": {"c": "c", "deep": {"e": "e"}},
                    "items": [{"c": 9, "s": "z"}], "t": {"c": "q"}},
     "dynamic": {"extra": {"k": [1, "two"]}},
+    "white-space": {"s": "  padded  ", "sub": {"c": "trailing newline\n"}, "any": [" x ", "   "], "ud": {"k": "\tv "}, "t": {"c": " t"}, "extra": " dyn "},
 }
 FORMATS = ["json", "yaml", "xml", "bson", "pickle"]
 PRIORS = ["same-format", "other-format", "absent"]
 
 
 def bounds(tier):
-    return {"states": list(STATES) if tier == "thorough" else ["scalars", "secrets", "items-2", "everything", "bytes-digest", "containers", "nulls"],
+    return {"states": list(STATES) if tier == "thorough" else ["scalars", "secrets", "items-2", "everything", "bytes-digest", "containers", "nulls", "white-space"],
             "formats": FORMATS, "priors": PRIORS, "exception_classes": sorted(exc_classes(tier))}
 
 
@@ -461,7 +462,8 @@ def _histories(job, ctx, schema):
     steps = ["save-a", "save-b", "delete", "change-a", "save-a-other-format"]
     for fmt in FORMATS:
         for n in (2, 3, 4):
-            for seq in itertools.product(steps, repeat=n):
+            # "grow-a": the (dynamic) configuration A gains a new key between saves; in sequences of up to 3 steps
+            for seq in itertools.product(steps + (["grow-a"] if n < 4 else []), repeat=n):
                 if "save-a" not in seq and "save-a-other-format" not in seq:
                     continue
                 if only is not None and only != ["history", fmt, list(seq)]:
@@ -480,11 +482,29 @@ def _histories(job, ctx, schema):
                     if st == "change-a":
                         a.i = (a.i or 0) + 1
                         continue
+                    if st == "grow-a":
+                        setattr(a, "grown%d" % i, [i, "v"])
+                        continue
                     who = b if st == "save-b" else a
                     f = fmt if st != "save-a-other-format" else ("json" if fmt != "json" else "yaml")
                     raised, log, names, captured = attempt_save(who, dest, f)
                     ctx.transitions += 1
                     got = file_id(dest)
+                    if raised is None and "grow-a" in seq and f == fmt:
+                        # a successful save loads back into an equal configuration (every key the object has now)
+                        fresh = cc.Config(schema, key_filename=os.path.join(tmp, "c19.key"))
+                        try:
+                            fresh.load(dest, f)
+                            if V.plain(_norm(cc.asdict(fresh))) != V.plain(_norm(cc.asdict(who))):
+                                ok = False
+                                ctx.violation("C19|history|%s|load-back-differs" % fmt, "sequence %s: after step %d (%s) the saved file loads back as %s, saved from %s"
+                                              % (list(seq), i, st, V.show(cc.asdict(fresh), 120), V.show(cc.asdict(who), 120)), _case(job, ["history", fmt, list(seq)]), size=n)
+                                break
+                        except Exception as exc:  # noqa
+                            ok = False
+                            ctx.violation("C19|history|%s|load-back-raises" % fmt, "sequence %s: loading the file saved at step %d raised %r" % (list(seq), i, exc),
+                                          _case(job, ["history", fmt, list(seq)]), size=n)
+                            break
                     if raised is not None or got is None or got[0] != captured:
                         ok = False
                         ctx.violation("C19|history|%s|%s" % (fmt, "raised" if raised else "stale-or-missing-file"),
